@@ -288,7 +288,7 @@ func wsKeep(m *openfgav1.AuthorizationModel) *openfgav1.AuthorizationModel {
 // ---- workload ----
 
 var c02Names = []string{"Viewer", "VIEWER", "Doc", "M", "user", "group", "doc", "viewer", "editor", "model", "type", "a.b", "a/b", "x-y", "relation", "schema", "m", "extend", "module", "_x", "b1", "a.b/c"}
-var c02Idents = []string{"c1", "C1", "is_valid", "Is_Valid", "x-cond", "_c", "cond2", "non_expired", "C", "c"}
+var c02Idents = []string{"c1", "C1", "is_valid", "Is_Valid", "x-cond", "_c", "cond2", "non_expired", "C", "c", "c3", "c4", "k_1", "k-2"}
 var c02ParamTypes = []openfgav1.ConditionParamTypeRef_TypeName{
 	openfgav1.ConditionParamTypeRef_TYPE_NAME_BOOL, openfgav1.ConditionParamTypeRef_TYPE_NAME_STRING, openfgav1.ConditionParamTypeRef_TYPE_NAME_INT,
 	openfgav1.ConditionParamTypeRef_TYPE_NAME_UINT, openfgav1.ConditionParamTypeRef_TYPE_NAME_DOUBLE, openfgav1.ConditionParamTypeRef_TYPE_NAME_DURATION,
@@ -298,7 +298,7 @@ var exprPool = []string{
 	"x < 10", "a == b && c != d", "x in [1, 2, 3]", "ip.in_cidr(cidr)", "t + d > now",
 	"m[\"k\"] == 'v'", "!(a || b) ? c : d", "x > 1.5e3 && y <= 0x1F", "s.startsWith(\"a b\")",
 	"a ==\n    b", "size(l) >= 1u", "-x * (y / z) - 1", "true || false || null == x",
-	"b\"bytes\" == y", "r'raw' == y", "x == 1", "{\"a\": 1 == x", "x\n\n  && y", "x % 2 == 0", "\"\"\"multi\nline\"\"\" == s", "",
+	"b\"bytes\" == y", "r'raw' == y", "x == 1", "{\"a\": 1 == x", "x\n\n  && y", "x % 2 == 0", "\"\"\"multi\nline\"\"\" == s", "", "s == \"naïve ü 日本\"", "'😀' in l",
 }
 var exprAtoms = []string{"x", "y", "abc", "1", "2u", "0x1F", "1.5", "==", "!=", "<", "<=", ">", ">=", "&&", "||", "[", "]", "{", "(", ")", ".", "-", "!", "?", "+", "*", "/", "%", "true", "false", "null", "in", "\"s t\"", "'q'", ":", ",", "type", "define", "model", "with", "and", "or", "but not", "from"}
 
@@ -350,9 +350,13 @@ func c02Userset(r *rand.Rand, depth int) *openfgav1.Userset {
 func c02Model(r *rand.Rand) *openfgav1.AuthorizationModel {
 	m := &openfgav1.AuthorizationModel{SchemaVersion: []string{"1.1", "1.2", "1.0"}[r.Intn(3)]}
 	modular := r.Intn(4) == 0
+	big := r.Intn(40) == 0 // beyond the small-slice thresholds of the sort routines (12) and of fast paths
 	nc := 0
 	if r.Intn(3) == 0 {
 		nc = 1 + r.Intn(3)
+	}
+	if big {
+		nc = 8 + r.Intn(3)
 	}
 	var conds []string
 	if nc > 0 {
@@ -365,13 +369,18 @@ func c02Model(r *rand.Rand) *openfgav1.AuthorizationModel {
 		}
 		conds = append(conds, cn)
 		cd := &openfgav1.Condition{Name: cn, Expression: randExpr(r), Parameters: map[string]*openfgav1.ConditionParamTypeRef{}}
-		for k := 1 + r.Intn(3); k > 0; k-- {
+		np := 1 + r.Intn(3)
+		if big {
+			np = 14
+		}
+		for k := np; k > 0; k-- {
 			p := &openfgav1.ConditionParamTypeRef{TypeName: c02ParamTypes[r.Intn(len(c02ParamTypes))]}
 			if r.Intn(4) == 0 {
 				p = &openfgav1.ConditionParamTypeRef{TypeName: []openfgav1.ConditionParamTypeRef_TypeName{openfgav1.ConditionParamTypeRef_TYPE_NAME_LIST, openfgav1.ConditionParamTypeRef_TYPE_NAME_MAP}[r.Intn(2)],
 					GenericTypes: []*openfgav1.ConditionParamTypeRef{p}}
 			}
-			cd.Parameters[[]string{"x", "X", "y", "param_1", "p-q", "model", "type", "l", "L"}[r.Intn(9)]] = p
+			pnames := []string{"x", "X", "y", "param_1", "p-q", "model", "type", "l", "L", "a", "b", "c", "d", "e", "f", "g1", "h_2"}
+			cd.Parameters[pnames[r.Intn(len(pnames))]] = p
 		}
 		if modular && r.Intn(2) == 0 {
 			cd.Metadata = &openfgav1.ConditionMetadata{Module: "mod" + fmt.Sprint(r.Intn(2)), SourceInfo: &openfgav1.SourceInfo{File: "f.fga"}}
@@ -379,6 +388,9 @@ func c02Model(r *rand.Rand) *openfgav1.AuthorizationModel {
 		m.Conditions[cn] = cd
 	}
 	nt := 1 + r.Intn(3)
+	if big {
+		nt = 13 + r.Intn(5)
+	}
 	seen := map[string]bool{}
 	for len(m.TypeDefinitions) < nt {
 		tn := c02Names[r.Intn(len(c02Names))]
@@ -388,6 +400,9 @@ func c02Model(r *rand.Rand) *openfgav1.AuthorizationModel {
 		seen[tn] = true
 		td := &openfgav1.TypeDefinition{Type: tn}
 		nr := r.Intn(4)
+		if big && r.Intn(3) == 0 {
+			nr = 13 + r.Intn(5)
+		}
 		if nr > 0 {
 			td.Relations = map[string]*openfgav1.Userset{}
 			if r.Intn(8) != 0 {
